@@ -156,7 +156,9 @@ def parse_tla_value(s):
             while s[end] != '"':
                 if s[end] == '\\':
                     end += 1
-                buf.append(s[end])
+                    buf.append({'t': '\t', 'n': '\n', 'r': '\r', 'f': '\f'}.get(s[end], s[end]))
+                else:
+                    buf.append(s[end])
                 end += 1
             pos = end + 1
             return ''.join(buf)
